@@ -669,6 +669,11 @@ class Translator:
         self.assumptions = []
         self.uses_dt = False
         self.calls = set()
+        self.repo = None                    # set by translate_target: helpers / constants of the same file are looked up there
+        self.aux = []                       # [(lean name, lines)] auxiliary definitions (helpers called by the function), in order
+        self.aux_info = {}                  # C name -> dict(lean, params, ret)
+        self.stack = []                     # helpers being translated (recursion is outside the subset)
+        self.enums = {}
 
     def err(self, ln, msg):
         return TranslationError(f'{self.where}: line {ln}: {msg}')
@@ -805,6 +810,10 @@ class Translator:
             consts = self.spec.get('consts') or {}
             if v in consts:
                 return consts[v]
+            if v != self.spec.get('flag_const'):
+                c = self.file_const(v, ln)
+                if c is not None:
+                    return c
             raise self.err(ln, f'unknown identifier `{v}`')
         if k == 'un' and e[1] == '*':
             d = self.spec.get('deref') or {}
@@ -954,8 +963,87 @@ class Translator:
                     self.uses_dt = True
                     pre = 'dt '
                 return (f'({f["lean"]} {pre}{" ".join(outs)})', f['ret'] if tkind is None else 'int')
-            raise self.err(ln, f'call of `{name}` (outside the subset)')
+            h = self.helper(base, ln)
+            if len(args) != len(h['params']):
+                raise self.err(ln, f'call of {base} with {len(args)} arguments')
+            outs = [self.atom(self.coerce(self.expr(a, env, ln), pk, ln)) for a, pk in zip(args, h['params'])]
+            return (f'({h["lean"]} {" ".join(outs)})', h['ret'])
         raise self.err(ln, f'expression form `{k}` (outside the subset)')
+
+    def helper(self, base, ln):
+        """a plain (non-template) function of the same file called by the function being translated: translated on demand
+        into a local function (`let h := fun … => …`) at the top of the generated definition"""
+        if base in self.aux_info:
+            return self.aux_info[base]
+        if self.repo is None or base in self.stack or len(self.stack) >= 4:
+            raise self.err(ln, f'call of `{base}` (outside the subset)')
+        fname = self.spec['file']
+        fs = [f for f in find_functions(fname, (self.repo / fname).read_text(), base) if f.template is None]
+        if len(fs) != 1:
+            raise self.err(ln, f'call of `{base}`: {len(fs)} plain definitions in {fname} (outside the subset)')
+        f = fs[0]
+        where = f'{fname}: {base} (helper of {self.spec["func"]})'
+
+        def kind_of(ty):
+            tyn = ''.join(w for w in ty.split() if w not in ('const', '&', 'inline', 'static'))
+            if tyn in INT_TYPES or tyn.replace('numpy::', '') in INT_TYPES or tyn in self.spec.get('enum_types', ()):
+                return 'int'
+            if tyn == 'bool':
+                return 'bool'
+            if tyn in U32_TYPES:
+                return 'u32'
+            raise TranslationError(f'{where}: type `{ty}` (outside the subset)')
+        params = []
+        for ty, n in c_params(f):
+            if n is None:
+                raise TranslationError(f'{where}: unnamed parameter')
+            params.append((n, kind_of(ty)))
+        ret = kind_of(' '.join(t.text for t in f.ret_toks))
+        pr = Parser(f.body_toks, where, tparams={}, enums=self.enums)
+        body = pr.block()
+        sub = Translator(where, dict(file=fname, func=base, ret_kind=ret, enum_types=self.spec.get('enum_types', ())), self.known)
+        sub.repo, sub.aux, sub.aux_info, sub.stack, sub.enums = self.repo, self.aux, self.aux_info, self.stack + [base], self.enums
+
+        def fell(env2, ind2):
+            raise TranslationError(f'{where}: control reaches the end of the function without `return`')
+        term = sub.stmts(body, {n: kd for n, kd in params}, fell, 3)
+        lean = f'{base}_' if base in LEAN_KEYWORDS else base
+        binders = ' '.join(f'({lname(n)} : {self.lean_type(kd)})' for n, kd in params)
+        # a local function of the generated definition (so that `unfold` + `simp only` in the ties see through it)
+        lines = [f'  -- helper `{base}` — {fname} lines {f.line0}–{f.line1}, sha256 of the token text {f.hash}',
+                 f'  let {lean} := fun {binders} =>', term]
+        self.aux.append((lean, lines))
+        self.asserts += sub.asserts
+        self.assumptions += sub.assumptions
+        self.aux_info[base] = dict(lean=lean, params=[kd for _, kd in params], ret=ret)
+        return self.aux_info[base]
+
+    def file_const(self, v, ln):
+        """`[static] const <type> v = <expr>;` at file scope of the function's file -> (lean text, kind)"""
+        if self.repo is None:
+            return None
+        fname = self.spec['file']
+        toks = tokenize((self.repo / fname).read_text(), fname)
+        for i, t in enumerate(toks):
+            if t.kind == 'id' and t.text == v and i + 1 < len(toks) and toks[i + 1].text == '=' and i >= 2:
+                a = i
+                while a > 0 and not (toks[a - 1].kind == 'pp' or (toks[a - 1].kind == 'op' and toks[a - 1].text in (';', '{', '}'))):
+                    a -= 1
+                head = [x.text for x in toks[a:i]]
+                if 'const' not in head:
+                    continue
+                j = i + 2
+                while j < len(toks) and toks[j].text != ';':
+                    j += 1
+                pr = Parser(toks[i + 2:j], f'{fname}: constant {v}', tparams={}, enums=self.enums)
+                e = pr.expr()
+                if pr.i != len(pr.toks):
+                    continue
+                val = self.expr(e, {}, ln)
+                if val[1] != 'int':
+                    raise self.err(ln, f'constant `{v}` is not an integer constant (outside the subset)')
+                return val
+        return None
 
     @staticmethod
     def atom(t):
@@ -1312,6 +1400,9 @@ class Translator:
         if flag:
             if e == ('var', flag):
                 return 'none'
+            if e[0] == 'cond':              # `return c ? a : flag;`
+                c = self.coerce(self.expr(e[1], env, ln), 'prop', ln)
+                return f'(if {c} then {self.ret(e[2], env, ln)} else {self.ret(e[3], env, ln)})'
             val = self.coerce(self.expr(e, env, ln), rk, ln)
             return f'some {self.atom(val)}'
         return self.coerce(self.expr(e, env, ln), rk, ln)
@@ -1553,12 +1644,30 @@ def translate_target(repo: Path, tg, known) -> dict:
     if tg.get('const_check'):
         cfile, cname, ctoks = tg['const_check']
         check_const_def(cfile, (repo / cfile).read_text(), cname, ctoks)
-    # parameters: names must be the configured ones, in order
+    # parameters are identified by position; a renamed parameter is renamed back (token-wise) to the configured name
     cps = c_params(f)
     cfg = tg['params']
+    ref = tg.get('c_param_names') if tg.get('raw_params') else [n for n, _ in cfg]
+    body_toks = f.body_toks
+    if ref is not None:
+        got = [n for _, n in cps]
+        if len(got) != len(ref) or None in got:
+            raise TranslationError(f'{where}: parameters {got}, expected {len(ref)} named parameters ({ref})')
+        ren = {g: r for g, r in zip(got, ref) if g != r}
+        if ren:
+            ids = {t.text for t in body_toks if t.kind == 'id'}
+            clash = sorted((set(ren.values()) & ids) - set(ren))
+            if clash:
+                raise TranslationError(f'{where}: parameters renamed to {got} and the body uses {clash} for something else')
+            nt = []
+            for k, t in enumerate(body_toks):
+                prev = body_toks[k - 1].text if k else ''
+                if t.kind == 'id' and t.text in ren and prev not in ('.', '->', '::'):
+                    t = Tok(t.kind, ren[t.text], t.line, t.pos, t.end)
+                nt.append(t)
+            body_toks = nt
+            cps = [(ty, ren.get(n, n)) for ty, n in cps]
     if not tg.get('raw_params'):
-        if [n for _, n in cps] != [n for n, _ in cfg]:
-            raise TranslationError(f'{where}: parameters {[n for _, n in cps]}, expected {[n for n, _ in cfg]}')
         for (ty, n), (_, kd) in zip(cps, cfg):
             tyw = [w for w in ty.split() if w not in ('const', '&')]
             tyn = ''.join(tyw)
@@ -1567,12 +1676,7 @@ def translate_target(repo: Path, tg, known) -> dict:
                   or (kd == 'bool' and tyn == 'bool') or (kd == 'u32' and tyn in U32_TYPES))
             if not ok:
                 raise TranslationError(f'{where}: parameter `{n}` has type `{ty}`, expected a {kd}')
-    else:
-        got = [n for _, n in cps]
-        exp = tg.get('c_param_names')
-        if exp is not None and got != exp:
-            raise TranslationError(f'{where}: parameters {got}, expected {exp}')
-    pr = Parser(f.body_toks, where, tparams={**{n: 'T' for n in tparams}, **{n: 'int' for n in INT}}, enums=enums)
+    pr = Parser(body_toks, where, tparams={**{n: 'T' for n in tparams}, **{n: 'int' for n in INT}}, enums=enums)
     pr.ptr_elems = set(tg.get('ptr_elems') or [])
     pr.struct_types = set(tg.get('struct_types') or [])
     if tg.get('trace'):
@@ -1585,6 +1689,9 @@ def translate_target(repo: Path, tg, known) -> dict:
         if pr.i != len(pr.toks):
             raise pr.err('tokens after the function body')
     tr = Translator(where, spec, known)
+    tr.repo, tr.enums = repo, enums
+    if tg.get('enum'):
+        spec['enum_types'] = (tg['enum'][1],)
     env = {}
     for n, kd in cfg:
         if kd != 'list':
@@ -1617,6 +1724,11 @@ def translate_target(repo: Path, tg, known) -> dict:
     if tr.assumptions:
         doc.append('    assumed: ' + '; '.join(tr.assumptions) + '.')
     doc[-1] += ' -/'
+    if tr.aux:
+        clash = sorted({a for a, _ in tr.aux} & ({lname(n) for n, _ in cfg} | {lname(n) for n, _ in tg.get('extra_params', [])}))
+        if clash:
+            raise TranslationError(f'{where}: helper name {clash} clashes with a parameter')
+        term = '\n'.join(l for _, ls in tr.aux for l in ls) + '\n' + term
     lines = doc + [f'def {tg["lean"]} {" ".join(binders)} : {rty} :=', term, '']
     info = dict(lean=tg['lean'], params=[kd for _, kd in cfg + list(tg.get('extra_params', []))], ret=tg['ret_kind'],
                 dt=('T-as-arg' if tg.get('template_call') else tr.uses_dt))
